@@ -19,7 +19,7 @@ CHECKS = {
              "(panics inside the render closure) excluded; x86_64 cfg only",
         ref="DESIGN.md section 3 C08"),
     "C01": dict(
-        technique="interval abstract interpretation of header fields and value-class taint of entropy-decoded integers to panicking operations on MIR; validation-check reconstruction against a reviewed limit table; call-graph cycle (recursion) census with bound checks; backward data-flow of unwrapped iterator searches; totality of matches over decoded enumerations and ranged integers (explicit-panic arms vs what the parsers reject); must-raw struct-field taint; registry of repair guards (compare / reject / guarded-call facts); signed-index guard rule; blocking-primitive census; lock re-acquisition dataflow",
+        technique="reviewed-table census of Option unwraps in the API crate keyed by the producing callee; interval abstract interpretation of header fields (closures, helper summaries, conditional refinements) and value-class taint of entropy-decoded integers to panicking operations on MIR; validation-check reconstruction against a reviewed limit table; call-graph cycle (recursion) census with bound checks; backward data-flow of unwrapped iterator searches; totality of matches over decoded enumerations and ranged integers (explicit-panic arms vs what the parsers reject); must-raw struct-field taint; registry of repair guards (compare / reject / guarded-call facts); signed-index guard rule; blocking-primitive census; lock re-acquisition dataflow",
         text="Decides four mechanisms the property names, for every input: raw hybrid-uint values never reach checked 32-bit arithmetic, "
              "shift amounts, divisors, negation or abs() without a dominating ordering comparison (R-RAWINT: each report is a "
              "reachable panic); 55 named input limits exist as compare->error checks with the reviewed bound (R-LIMIT); running "
@@ -44,7 +44,7 @@ CHECKS = {
         note="trusts the reference table transcribed from ISO/IEC 18181-2; Brotli out of scope",
         ref="DESIGN.md section 3 C10"),
     "C11": dict(
-        technique="error-type graph from ADT definitions vs recognised wrapping routes computed from MIR downcast chains; boundary-site census with edge-outcome path checks",
+        technique="error-type graph from ADT definitions vs recognised wrapping routes computed from MIR downcast chains; boundary-site census with edge-outcome path checks; dominance ordering of the deferred read-error check before the final-state check on the RLE path",
         text="Decides the classification half for every prefix: every route by which a bitstream end-of-data error can be wrapped "
              "(31 routes over 7 error enums) is recognised by the corresponding unexpected_eof method; every API boundary asks the "
              "question and branches on it; the end-of-data edge never sets the sticky has_error flag and, in try_init, leads to "
@@ -52,7 +52,7 @@ CHECKS = {
         note="intraprocedural path checks; the set of boundary functions is a reviewed table",
         ref="DESIGN.md section 3 C11"),
     "C02": dict(
-        technique="target-feature must-dataflow on MIR (runtime detection dominance, call-graph summaries) + unsafe-site census with per-class guard obligations + compile_fail witnesses",
+        technique="target-feature must-dataflow on MIR (runtime detection dominance, call-graph summaries) + unsafe-site census with per-class guard obligations (incl. alignment test against the target type of every view re-typing cast) + compile_fail witnesses",
         text="Decides for every function and every CPU: a #[target_feature] kernel is only entered where the features are enabled "
              "or detected on every path (R-TF); every unsafe site belongs to a reviewed class whose guard obligation is re-checked "
              "(R-UNSAFE). Does not decide the index arithmetic inside SIMD kernels (class h).",
@@ -80,7 +80,7 @@ CHECKS = {
         note="trusts rustc's capture analysis and callee resolution; rayon itself is trusted",
         ref="DESIGN.md section 3 C07"),
     "C13": dict(
-        technique="field-access census + atomic-operation typing + closure-body shape + ownership (drop of handle temporaries) on MIR; dominance ordering of tracker charge before allocation",
+        technique="field-access census + atomic-operation typing + closure-body shape + ownership (drop of handle temporaries) on MIR; dominance ordering of tracker charge before allocation; census of discarded out-of-memory results",
         text="Decides the budget arithmetic for every interleaving: bytes_left is only changed by fetch_update(checked_sub) and "
              "fetch_add of exactly the amount recorded in the handle; handles cannot be forged, are not dropped as temporaries, are not "
              "leaked, and exhaustion is never unwrapped. Does not decide untracked allocations or Arc cycles.",
@@ -136,7 +136,7 @@ CHECKS = {
         note="the rational approximations of the PQ / sRGB curves are snapshot-guarded only (stated in evidence)",
         ref="DESIGN.md section 8.9"),
     "C12": dict(
-        technique="exhaustive decision-table extraction of the buffer-width predicate by abstract evaluation of MIR; sibling-implementation cross-checks (resolved callees and operators of the I32 vs I16 arms and of the i32 vs i16 trait impls); no saturating i16 arithmetic in the sample-processing crates (callee census)",
+        technique="exhaustive decision-table extraction of the buffer-width predicate by abstract evaluation of MIR; sibling-implementation cross-checks (resolved callees and operators of the I32 vs I16 arms and of the i32 vs i16 trait impls); no saturating i16 arithmetic in the sample-processing crates (callee census); operation-multiset agreement of the scalar i16 / i32 transform kernels",
         text="Claimed narrowly: what selects the buffer width, and that both widths go through the same operations. narrow_modular equals "
              "`!force_wide && header flag` for all four input combinations and the builder setting reaches the render context; every match "
              "on ImageBuffer with separate 32-bit / 16-bit arms (15) and every i16/i32 pair of Sample/Sealed methods (12) use the same "
@@ -145,7 +145,7 @@ CHECKS = {
         note="sibling agreement is a cross-check, not a proof of equal results: arms that differ only in arithmetic constants of the same operators are not distinguished",
         ref="DESIGN.md section 8.13"),
     "C17": dict(
-        technique="interval abstract interpretation of reconstruction-header fields to panicking operations; backward data-flow of unwrapped iterator searches; validation-check reconstruction from MIR against a reviewed table (through helper and predicate functions); symbolic carving of the data section; per-variant constant-propagating path rules for the status query",
+        technique="interval abstract interpretation of reconstruction-header fields to panicking operations; backward data-flow of unwrapped iterator searches; validation-check reconstruction from MIR against a reviewed table (through helper and predicate functions); symbolic carving of the data section; per-variant constant-propagating path rules for the status query; registry of repair guards (data-section completeness before slicing / before reporting Available)",
         text="Claimed narrowly: the two clauses visible in the shape of the code. (1) jpeg_reconstruction_status reports Available only on the "
              "Data state of the jbrd box and after each piece of metadata the header expects (ICC, Exif, XMP) has been probed; "
              "reconstruct_jpeg refuses incomplete box states and a missing frame before unwrapping. (2) Hostile reconstruction data is an "
